@@ -13,6 +13,7 @@ pub mod prog;
 pub mod rev;
 pub mod drive;
 pub mod limits;
+pub mod letrep;
 pub mod twin;
 pub mod bitsrep;
 pub mod codec;
